@@ -135,6 +135,11 @@ class Model:
     if name in self.K and k in ('ko', None):
       del m.K[name]
       return 'ok', None, m
+    if name in self.K and k in ('po', 'var'):
+      # a **kwargs entry that happens to be named like a positional-only /
+      # *args parameter: deleting it by attribute may be refused or honoured
+      del m.K[name]
+      return 'either', None, m
     return 'raise', None, self
 
   # ---- positional operations
